@@ -5,6 +5,7 @@ CONSTANTS
   FlagSets <- CoreFlagSets
   EnvActs <- AllEnv
   FaultActs <- AllFault
+  UsesProfile <- NoProfile
   MaxEnv = 2
 INIT Init
 NEXT Next
